@@ -148,6 +148,13 @@ def run(ctx):
     concrete, files = 0, 0
     usable = []
     for c, o in zip(cases, outs):
+        early = [] if o.get("ParsePanic") else core.declared_vs_read(c, o)
+        if early:
+            # what is solved (or found unsolvable) is not the structure the file declares: nothing written can be its record
+            if concrete < 3:
+                ctx.violation("the .inkfemsol text is not a faithful record: " + "; ".join(early[:3]), {"case": c, "failures": early})
+            concrete += 1
+            continue
         if not solcore.solved(o) or not o.get("SolText"):
             continue
         files += 1
